@@ -2,6 +2,7 @@ package main
 
 import (
 	"sort"
+	"strings"
 
 	"rcproxy/core"
 	"rcproxy/core/codec"
@@ -17,7 +18,7 @@ func init() {
 	suites["cdecode"] = suiteCDecode
 	replayers["cdecode"] = func(in sx.V) sx.V {
 		it := sx.Items(in)
-		return runCDecode(int(sx.Int(it[0])), sx.Bytes(it[1]))
+		return Safe(func() sx.V { return runCDecode(int(sx.Int(it[0])), sx.Bytes(it[1])) })
 	}
 }
 
@@ -75,7 +76,12 @@ func typeTag(b []byte, limit int) string {
 
 func suiteCDecode(c *Ctx) {
 	emit := func(limit int, b []byte, tags ...string) {
-		c.Emit("cdecode", sx.L(sx.I(limit), sx.B(b)), runCDecode(limit, b), append(tags, typeTag(b, limit))...)
+		out := Safe(func() sx.V { return runCDecode(limit, b) })
+		tt := "out-panic"
+		if !strings.HasPrefix(sx.String(out), "(x70616e6963") {
+			tt = typeTag(b, limit)
+		}
+		c.Emit("cdecode", sx.L(sx.I(limit), sx.B(b)), out, append(tags, tt)...)
 	}
 	big := 6 * 1024 * 1024
 	// corpus: the witnesses of repaired defects and boundary literals, run first
